@@ -252,6 +252,19 @@ def rule_tables(ctx, repo):
                 dest = c.args[0].value if c.args and isinstance(c.args[0], ast.Constant) else "?"
                 ks = set(_literal_keys(c))
                 n += 1
+                if dest == "_alt":
+                    # check() skips string-valued alternatives (they are prose: 'float', '>0'); a string that spells a tuple/list/set of
+                    # literals is a declared enumeration that is silently never enforced
+                    for k_, v_ in _literal_keys(c).items():
+                        if isinstance(v_, ast.Constant) and isinstance(v_.value, str):
+                            try:
+                                lit = ast.literal_eval(v_.value)
+                            except Exception:
+                                lit = None
+                            if isinstance(lit, (tuple, list, set)):
+                                ctx.violation("C20.alternatives", "%s._alt[%s]" % (ci.name, k_),
+                                              "the alternatives of `%s` are declared as the string %r: check() treats strings as prose and never "
+                                              "enforces them, so a value outside %s is accepted" % (k_, v_.value, lit), repo.W(ci, v_))
                 miss = sorted(ks - declared)
                 ctx.check(not miss, "C20.tables", "%s.add_extra(%s)@L%d" % (ci.name, dest, c.lineno), "%d keys are declared fields" % len(ks),
                           "keys %s given to %s are not declared config fields of %s (the entry is dropped with a warning, e.g. the "
